@@ -49,6 +49,7 @@ impl Op {
             Op::RawRound(s) => Op::RawRound(norm_slot(*s, hlen)),
             Op::IncStrong(r) => Op::IncStrong(h(r)),
             Op::DecStrong(s) => Op::DecStrong(norm_slot(*s, hlen)),
+            Op::CloneLate(s) => Op::CloneLate(norm_slot(*s, hlen)),
             other => other.clone(),
         }
     }
@@ -111,6 +112,12 @@ pub enum Op {
     /// inside a destructor: downgrade own stored handle k (its target may be a dying peer or the
     /// dying object itself) and let the Weak escape to the program (C05)
     DowngradeOwn(usize),
+    /// mark an object: cloning its value (make_mut) does not copy the handles it stores
+    Shallow(ObjId),
+    /// inside a destructor: move own stored handle k out to a program slot (it escapes the teardown)
+    EscapeOwn(usize),
+    /// clone a program-held handle whose target is already destroyed, then print AFTER-CLONE (C16)
+    CloneLate(usize),
     /// no-op marker
     Nop,
 }
@@ -187,6 +194,9 @@ impl fmt::Display for Op {
             Op::CloneDead(k) => write!(f, "clonedead:{}", k),
             Op::DropDead(k) => write!(f, "dropdead:{}", k),
             Op::DowngradeOwn(k) => write!(f, "downgradeown:{}", k),
+            Op::Shallow(o) => write!(f, "shallow:{}", o),
+            Op::EscapeOwn(k) => write!(f, "escapeown:{}", k),
+            Op::CloneLate(s) => write!(f, "clonelate:{}", fmt_slot(*s)),
             Op::Nop => write!(f, "nop"),
         }
     }
@@ -254,6 +264,9 @@ pub fn parse_op(s: &str) -> Option<Op> {
         "clonedead" => Op::CloneDead(u(1)?),
         "dropdead" => Op::DropDead(u(1)?),
         "downgradeown" => Op::DowngradeOwn(u(1)?),
+        "shallow" => Op::Shallow(o(1)?),
+        "escapeown" => Op::EscapeOwn(u(1)?),
+        "clonelate" => Op::CloneLate(u(1)?),
         "nop" => Op::Nop,
         _ => return None,
     })
